@@ -631,14 +631,14 @@ Theorem c14_bytes_crash_address : forall rc e m d s x, wf_model e m = true -> du
 Proof. intros rc e m d s x Hwf Hd. rewrite (bytes_roundtrip rc e m Hwf) in Hd. exact (model_crash rc e m d s x Hwf Hd). Qed.
 Print Assumptions c14_bytes_crash_address.
 
-(* What the index depends on: two serialized dump models with the same header time and the same nine streams (system info, thread
-   list, thread names, exception, Breakpad info, misc info, Linux status, module list, unloaded module list) are processed to the same
-   record - whatever their leading (decoy / duplicate) directory entries, list padding, header version / checksum / flags, memory
-   lists, memory info, assertion, thread info, handle and other Linux streams. *)
+(* What the index depends on: two serialized dump models with the same header time and the same streams (system info, thread
+   list, thread names, exception, Breakpad info, misc info, Linux status, module list, unloaded module list, the two memory lists)
+   are processed to the same record - whatever their leading (decoy / duplicate) directory entries, list padding, header version /
+   checksum / flags, memory info, assertion, thread info, handle and other Linux streams. *)
 Theorem c14_bytes_depend_on_streams : forall rc e m1 m2, wf_model e m1 = true -> wf_model e m2 = true ->
   m_time m1 = m_time m2 -> m_sysinfo m1 = m_sysinfo m2 -> m_threads m1 = m_threads m2 -> m_tnames m1 = m_tnames m2 ->
   m_exception m1 = m_exception m2 -> m_breakpad m1 = m_breakpad m2 -> m_misc m1 = m_misc m2 -> m_lx_status m1 = m_lx_status m2 ->
-  m_modules m1 = m_modules m2 -> m_unloaded m1 = m_unloaded m2 ->
+  m_modules m1 = m_modules m2 -> m_unloaded m1 = m_unloaded m2 -> m_memory m1 = m_memory m2 -> m_memory64 m1 = m_memory64 m2 ->
   dump_of_bytes rc (encode_dump e m1) = dump_of_bytes rc (encode_dump e m2).
 Proof. exact bytes_depend_on_streams. Qed.
 Print Assumptions c14_bytes_depend_on_streams.
@@ -670,6 +670,25 @@ Theorem c14_bytes_byte_order_independent : forall rc m, wf_model LE m = true -> 
 Proof. intros rc m H1 H2. split; [exact (bytes_byte_order rc m H1 H2)|exact forget_index]. Qed.
 Print Assumptions c14_bytes_byte_order_independent.
 
+(* "Stack memory chosen to contain the context's stack pointer", end to end from the bytes, for a thread whose stack descriptor is
+   null (full-dump / Memory64 layout): the regions are those get_memory() serves - the Memory64List when the model has one, else the
+   MemoryList -, the thread's own memory is the region at start_of_memory_range; the walk keeps it when 8 bytes are readable there at
+   the starting context's stack pointer, else takes the region containing the stack pointer, else keeps the own one. *)
+Theorem c14_bytes_stack_memory : forall rc e m d s t, wf_model e m = true -> dump_of_bytes rc (encode_dump e m) = Some d ->
+  m_sysinfo m = Some s -> th_stack t = None ->
+  let regs := map region_of (unified_model m) in
+  let own := mem_at regs (th_stack_base t) in
+  d_mems d = regs /\
+  forall src c,
+    ((exists k, own = Some k /\ readable_u64 regs k (c_sp c) = true) ->
+       choose_stack (d_mems d) (thread_of rc e (si_arch s) t) (Some (src, c)) = own) /\
+    (~ (exists k, own = Some k /\ readable_u64 regs k (c_sp c) = true) ->
+       choose_stack (d_mems d) (thread_of rc e (si_arch s) t) (Some (src, c)) =
+         match mem_at regs (c_sp c) with Some k => Some k | None => own end) /\
+    choose_stack (d_mems d) (thread_of rc e (si_arch s) t) None = own.
+Proof. intros rc e m d s t Hwf Hd. rewrite (bytes_roundtrip rc e m Hwf) in Hd. exact (model_stack_memory rc e m d s t Hd). Qed.
+Print Assumptions c14_bytes_stack_memory.
+
 (* names are kept apart: the integer a UTF-16 name is carried as determines the name *)
 Theorem c14_names_injective : forall u1 u2,
   Forall (fun x => 0 <= x < 65536) u1 -> Forall (fun x => 0 <= x < 65536) u2 -> pack_units u1 = pack_units u2 -> u1 = u2.
@@ -693,7 +712,7 @@ Definition bx_with (exc_tid : option Z) (bp : option (list Z)) : model :=
                           si_build := 0; si_platform := 33281; si_suite := 0; si_reserved2 := 0; si_cpu := repeat 0 24; si_csd := Some [] |};
      m_threads := Some [bx_thread 5 4096 65536; bx_thread 9 8192 65600; bx_thread 7 20500 65700];
      m_modules := Some [bx_module 4096 4096; bx_module 1879048192 65536];
-     m_memory := None; m_memory64 := None;
+     m_memory := Some [ {| mr_base := 65536; mr_bytes := repeat 7 256 |}; {| mr_base := 65792; mr_bytes := repeat 9 64 |} ]; m_memory64 := None;
      m_exception := match exc_tid with None => None | Some tid => Some {| ex_thread_id := tid; ex_align := 0; ex_code := 11; ex_flags := 1; ex_record := 0; ex_address := 3735928559;
                             ex_nparams := 0; ex_align2 := 0; ex_info := repeat 0 15; ex_ctx := Some (bx_ctx 20480 65800) |} end;
      m_tnames := Some [(7, [110; 49]); (5, [110; 50]); (7, [110; 51])];
@@ -729,7 +748,11 @@ Example c14_nonvacuous_bytes :
       process_id d = Some 4242 /\ process_create_time d = None /\ d_time d = 1262805309 /\
       read_modules (d_modules d) = [(4096, 4096); (1879048192, 65536)] /\
       frame_unloaded Debug d 20480 = Ret [(pack_units [117; 49], 480); (pack_units [117; 50], 80)] /\
-      frame_unloaded Release d 4100 = Ret []
+      frame_unloaded Release d 4100 = Ret [] /\
+      (* null stack descriptors: thread 5 keeps the region at its start_of_memory_range (sp 65536 readable there); the walk of
+         thread 7 starts at the exception's sp 65800, which lies in the SECOND region *)
+      d_mems d = [(65536, 256); (65792, 64)] /\
+      map (fun tc => choose_stack (d_mems d) (fst tc) (cs_ctx (snd tc))) (combine (d_threads d) (threads_of d)) = [Some 0; Some 0; Some 1]
   | None => False
   end.
 Proof. vm_compute. repeat split. Qed.
